@@ -252,7 +252,7 @@ def check_hgmm(run, tier, rng, reps=None, only_groups=False):
             kind = "groups+satellites"
             wk = rng.choice(["ones", "cyclic"])
             w = np.ones(n) if wk == "ones" else 1.0 + (np.arange(n) % 5)
-            cap = rng.choice([None, 3, 6, 11])
+            cap = rng.choice([None, 1, 1, 2, 3, 6, 11])
         norm = bool(t % 2)
         mod = rng.choice([0.5, 1.0, 2.0])
         what = dict(case=t, n=n, d=d, data=kind, weights=wk, cap=cap, normalize=norm, threshold_modifier=mod)
